@@ -208,8 +208,13 @@ func runC18(w *World) {
 		}
 		return true
 	}
+	listSeq := 0
 	checkArts := func(path []string, when string) bool {
 		n := root.at(path)
+		listSeq++
+		if cfg["reloads"] == 1 && listSeq%3 == 0 {
+			w.ReloadDuring(listSeq % 17) // a reload while somebody lists: the listing is still answered, and whole
+		}
 		rep, ok := c.ListArticles(path)
 		if !ok || rep.Err != 0 {
 			w.Violate("c18-article-list-unanswered", "%s: article list of %q not answered", when, path)
